@@ -97,3 +97,26 @@ pub fn units(err: f64, unit: f64) -> i64 {
     let u = (err / unit).ceil(); if u >= SAT as f64 { SAT } else { u as i64 }
 }
 pub fn bits(x: f64) -> String { format!("{:016x}", x.to_bits()) }
+
+// ---------------------------------------------------------------- exact rationals in events: [n, d]
+/// `[n, d]` (reduced, d > 0); a value that does not fit TLC's 32-bit integers is logged as [BAD, 1]
+pub fn jrat(r: Rat) -> Value { if r.n.abs() < SAT as i128 && r.d < SAT as i128 { json!([r.n as i64, r.d as i64]) } else { json!([BAD, 1]) } }
+pub fn rat_fits(r: Rat) -> bool { r.n.abs() < SAT as i128 && r.d < SAT as i128 }
+/// accepts an integer or a pair [n, d]
+pub fn rat_from(v: &Value) -> Rat { if let Some(n) = v.as_i64() { Rat::int(n) } else { Rat::new(v[0].as_i64().unwrap() as i128, v[1].as_i64().unwrap() as i128) } }
+pub fn jratvec(v: &Vector<Rat>) -> Value { Value::from(v.vec.iter().map(|x| jrat(*x)).collect::<Vec<Value>>()) }
+pub fn ratvec_from(v: &Value) -> Vector<Rat> { Vector::create(v.as_array().map(|a| a.iter().map(rat_from).collect()).unwrap_or_default()) }
+/// {r, c, d: [[n,d], ...]} row-major
+pub fn jratmat(m: &Matrix<Rat>) -> Value {
+    let mut d = Vec::new(); for i in 0..m.rows() { for j in 0..m.cols() { d.push(jrat(m[(i, j)])); } }
+    json!({"r": m.rows(), "c": m.cols(), "d": d})
+}
+pub fn ratmat_from(v: &Value) -> Matrix<Rat> {
+    let r = getu(v, "r"); let c = getu(v, "c"); let d = v["d"].as_array().unwrap();
+    let mut m = Matrix::<Rat>::new(r, c, Rat::int(0)); for i in 0..r { for j in 0..c { m[(i, j)] = rat_from(&d[i * c + j]); } } m
+}
+/// f64 matrix / vector from integer JSON
+pub fn f64mat_from(v: &Value) -> Matrix<f64> { mat_from::<f64>(v, None) }
+pub fn f64vec_from(v: &Value) -> Vector<f64> { vec_from::<f64>(v, None) }
+/// an f64 given as {"m": mantissa(int), "e": exponent(int)} meaning m * 2^e, or a plain integer
+pub fn f64_from(v: &Value) -> f64 { if let Some(n) = v.as_i64() { n as f64 } else { (v["m"].as_i64().unwrap() as f64) * (2.0f64).powi(v["e"].as_i64().unwrap() as i32) } }
